@@ -20,22 +20,22 @@ PROPS = {
                 "request line; non-trivial = the read succeeds or fails with a payload-carrying error",
     },
     "C02": {"errkinds": False, "streams": [S("parse", 3000, 20000), S("acc", 1, 1), S("table", 600, 4000), S("ehdr", 8, 200)], "projection": "full"},
-    "C09": {"errkinds": False, "streams": [S("table", 2000, 8000), S("streamcache", 2, 6)], "projection": "full"},
+    "C09": {"errkinds": False, "streams": [S("table", 2000, 8000), S("streamcache", 2, 6), S("streamfault", 3, 20)], "projection": "full", "also_tags": ["C17"]},
     "C15": {"streams": [S("strtab", 2000, 20000), S("utf8", 500, 5000)], "projection": "full"},
     "C10": {"errkinds": ["BadMagic", "UnsupportedElfClass", "UnsupportedVersion", "UnsupportedElfEndianness"], "streams": [S("ident", 800, 4000), S("identstream", 1, 2), S("file", 60, 400)], "projection": "full"},
     "C03": {"errkinds": False, "streams": [S("file", 150, 1500), S("sweep", 1, 3)], "projection": "parts:open=,S,P,T="},
-    "C05": {"errkinds": False, "streams": [S("file", 150, 1500), S("sweep", 1, 3), S("bigfile", 1, 1), S("stream", 40, 300), S("streamhdr", 1, 2), S("bigstream", 1, 1), S("streamcache", 2, 6), S("filehdr", 2, 6)],
-            "projection": "parts:open=,T=,Y=,D=,d=,V=,S0=", "also_tags": []},
-    "C18": {"errkinds": False, "streams": [S("prefix", 40, 400), S("sprefix", 25, 200)], "projection": "full"},
-    "C20": {"errkinds": False, "streams": [S("file", 150, 1500), S("sweep", 1, 3), S("streamcache", 2, 6)], "projection": "parts:open=,C=,Y=,D=,d=,N=,H=,S,P"},
+    "C05": {"errkinds": False, "streams": [S("file", 150, 1500), S("sweep", 1, 3), S("bigfile", 1, 1), S("stream", 40, 300), S("streamhdr", 1, 2), S("bigstream", 1, 1), S("streamcache", 2, 6), S("filehdr", 2, 6), S("streamfault", 3, 20)],
+            "projection": "parts:open=,T=,Y=,D=,d=,V=,S0=", "also_tags": ["C17"]},
+    "C18": {"errkinds": False, "streams": [S("prefix", 40, 400), S("sprefix", 25, 200), S("streamfault", 3, 20)], "projection": "full", "also_tags": ["C17"]},
+    "C20": {"errkinds": False, "streams": [S("file", 150, 1500), S("sweep", 1, 3), S("streamcache", 2, 6), S("streamfault", 3, 20)], "projection": "parts:open=,C=,Y=,D=,d=,N=,H=,S,P", "also_tags": ["C17"]},
     "C11": {"errkinds": False, "streams": [S("gnu", 200, 2500), S("file", 60, 400)], "projection": "parts:ok,err,new,open=,H=,C="},
     "C12": {"errkinds": False, "streams": [S("sysv", 200, 2500), S("file", 60, 400)], "projection": "parts:ok,err,new,open=,H=,C=", "also_tags": []},
     "C13": {"errkinds": False, "streams": [S("symver", 150, 1500), S("file", 80, 500), S("stream", 40, 300), S("verorder", 1, 3)], "projection": "parts:ok,err,r,d0,d1,d2,d3,d4,d5,d6,d7,d8,d9,V=,open="},
     "C14": {"errkinds": False, "streams": [S("notes", 400, 4000), S("file", 80, 500)], "projection": "parts:ok,err,open=,S,P"},
     "C16": {"streams": [S("sysv", 120, 1200), S("gnu", 120, 1200), S("symver", 120, 1200), S("notes", 200, 2000),
-                        S("table", 300, 2000), S("file", 60, 400)], "projection": "status", "timed": True},
-    "C07": {"errkinds": False, "streams": [S("stream", 60, 600), S("streamhdr", 1, 2), S("streamcache", 2, 6), S("verorder", 1, 3)], "projection": "full", "also_tags": ["C05", "C09", "C20"]},
-    "C08": {"errkinds": False, "streams": [S("stream", 60, 600), S("streamhdr", 1, 2), S("streamcache", 2, 6), S("filehdr", 2, 6)], "projection": "full"},
+                        S("table", 300, 2000), S("file", 60, 400), S("stream", 20, 150), S("streamfault", 3, 20)], "projection": "status", "timed": True, "also_tags": ["C17"]},
+    "C07": {"errkinds": False, "streams": [S("stream", 60, 600), S("streamhdr", 1, 2), S("streamcache", 2, 6), S("verorder", 1, 3), S("bigstream", 1, 1), S("streamfault", 3, 20)], "projection": "full", "also_tags": ["C05", "C09", "C20", "C17"]},
+    "C08": {"errkinds": False, "streams": [S("stream", 60, 600), S("streamhdr", 1, 2), S("streamcache", 2, 6), S("filehdr", 2, 6), S("streamfault", 3, 20)], "projection": "full", "also_tags": ["C17"]},
     "C17": {"errkinds": False, "streams": [S("streamfault", 12, 80), S("bigfault", 1, 1)], "projection": "full"},
     "C19": {"streams": [], "projection": "full", "abi_crosscheck": True},
     "C06": {"streams": [S("file", 120, 1200), S("sweep", 1, 2), S("notes", 200, 2000), S("sysv", 80, 600), S("gnu", 80, 600),
